@@ -439,7 +439,7 @@ class RebuildModel:
 
     def _ok_only(self, g):
         """after any GROW/obligated call in g, every reachable return value is built as Ok(..)"""
-        if not g.locals[0].startswith("std::result::Result"):
+        if not g.locals[0].startswith("core::result::Result"):
             return False
         acq = [c for c in g.calls if c.is_(*GROW)]
         if not acq:
@@ -451,7 +451,7 @@ class RebuildModel:
         for i, j, s in g.assigns():
             if i in reach and s[1] == [0, []]:
                 rv = s[2]
-                if not (rv[0] == "agg" and rv[2] == "std::result::Result" and rv[3] == "Ok"):
+                if not (rv[0] == "agg" and rv[2] == "core::result::Result" and rv[3] == "Ok"):
                     return False
         for c in g.calls:
             if c.bb in reach and c.dest == [0, []]:
